@@ -127,7 +127,7 @@ needs_quoting = Contract(
         Case("star", {"typ": "str"}, assume=["typ.startswith('*')"]),
         Case("str", {"typ": ("lit", "str")}),
         Case("Optional[str]", {"typ": ("lit", "Optional[str]")}),
-        Case("general", {"typ": "str"}, assume=["not typ.startswith('*')", "typ not in ('str', 'Optional[str]')"],
+        Case("general", {"typ": "str"}, assume=["not typ.startswith('*')", "typ not in ('str', 'Optional[str]')", "typ != ''"],  # (a type is a non-empty text; the absent type is None)
              stop_after="parsed_typ_ast = ast_parse_fix(typ)"),
     ],
     ghosts={"parsed_typ_ast = ast_parse_fix(typ)": [("g_norm", "typ")]},
